@@ -75,6 +75,7 @@ fn main() {
                 profile: get("profile", "core"),
                 restarts: get("restarts", "0") == "1",
                 observers: get("observers", "0") == "1",
+                replay_welcomes: get("wreplay", "0") == "1",
             };
             let f = std::fs::File::create(out).expect("create out");
             let mut r = Recorder { out: Box::new(std::io::BufWriter::new(f)), i: 0 };
